@@ -519,9 +519,14 @@ where
 // magnitude beyond its normal cost) the check reports that the call does not return for this input
 // (the helper thread is abandoned). Everything else keeps the stall watchdog (exit status 2).
 
+/// set by the byte-tape entry points of the libFuzzer targets: under libFuzzer every panic aborts the
+/// process (its panic hook), so probes whose outcome may legitimately be a caught panic (a caller's
+/// mistake made on purpose, outcome ignored) are left out there
+pub static FUZZ_MODE: std::sync::atomic::AtomicBool = std::sync::atomic::AtomicBool::new(false);
+
 const DEADLINE_SUBS: &[&str] = &[
     "graphs", "regression", "wide-index", "medium", "conversion", "conversion-large", "conversion-wide", "encoder", "encoder-large", "encoder-wide", "model", "degenerate-shapes", "roundtrip",
-    "roundtrip-large", "roundtrip-fixed", "totality", "totality-fixed", "interleaver-shapes", "interleaver-random", "puncturer", "peg", "peg-medium",
+    "roundtrip-large", "roundtrip-fixed", "totality", "totality-fixed", "interleaver-shapes", "interleaver-random", "puncturer", "peg", "peg-medium", "single-thread-pool",
 ];
 const DEADLINE_S: u64 = 60;
 
@@ -797,6 +802,7 @@ fn out_dir(ctx: &Ctx) -> PathBuf {
 
 pub fn run_property(ctx: &Ctx, prop: &Property, only_sub: Option<&str>) -> RunOutcome {
     let start = *START.get_or_init(Instant::now);
+    crate::props::warm::warm_process();
     let mut results = Vec::new();
     for sub in &prop.subs {
         if let Some(o) = only_sub {
